@@ -126,11 +126,37 @@ def driveC07 (args : List String) : String :=
     | _, _ => "bad-op"
   | _ => "bad-op"
 
+/-- `reg=svc:u1,u2:s1;svc2::s1` (all names hex) -/
+def parseReg (arg : String) : List Resolve.Svc :=
+  if !arg.startsWith "reg=" then [] else
+  let body := (arg.drop 4).toString
+  if body.isEmpty then [] else
+  (body.splitOn ";").filterMap fun item =>
+    match item.splitOn ":" with
+    | [n, u, st] =>
+      let names := fun (x : String) => if x.isEmpty then [] else (x.splitOn ",").filterMap hexArg
+      (hexArg n).map fun nb => { name := nb, unary := names u, streams := names st }
+    | _ => none
+
+def driveC12 (args : List String) : String :=
+  match args with
+  | ["inproc", kind, name, reg] =>
+    match hexArg name with
+    | some nm =>
+      let k := if kind == "unary" then Resolve.Kind.unary else Resolve.Kind.stream
+      match Resolve.inprocNow k (parseReg reg) nm with
+      | .handler s m => s!"handler {showBytes s} {showBytes m}"
+      | .unimplemented => "unimplemented"
+      | .panic => "panic"
+    | none => "bad-op"
+  | _ => "bad-op"
+
 def dispatch (line : String) : String :=
   match (line.splitOn " ").filter (· ≠ "") with
   | "C14" :: rest => driveC14 rest
   | "C09" :: rest => driveC09 rest
   | "C07" :: rest => driveC07 rest
+  | "C12" :: rest => driveC12 rest
   | _ => "bad-op"
 
 partial def loop (h : IO.FS.Stream) (out : IO.FS.Stream) : IO Unit := do
